@@ -78,7 +78,8 @@ def options(tier, k, allow_random, light=False):
         j += 1
         if light and tier == 'quick' and ((dx_exp == 10 and j % 3 != 0) or (not kz and j % 2 != 0)):   # networks (expensive to build): thinned grid in the quick tier
             continue
-        yield dict(dx_exp=dx_exp, relative=rel, seedmode=mode, keep_zero=kz, verbose=j % 2 == 0, pollute=j % 3 == 0, ncalls=2 if j % 4 == 0 else 1, bare=j % 5 == 0, preresponse=j % 7 == 0, rngseed=j, reuse_out=j % 2 == 1, keep_alloc=j % 6 == 0)
+        for jj in ((j,) if tier == 'quick' else (j, j + 1, j + 3)):   # thorough: three different rotations of the secondary flags per grid point
+            yield dict(dx_exp=dx_exp, relative=rel, seedmode=mode, keep_zero=kz, verbose=jj % 2 == 0, pollute=jj % 3 == 0, ncalls=2 if jj % 4 == 0 else 1, bare=jj % 5 == 0, preresponse=jj % 7 == 0, rngseed=jj, reuse_out=jj % 2 == 1, keep_alloc=jj % 6 == 0)
 
 
 @bound('single fixture modules with exact dyadic Jacobians: linear and quadratic (with mixed second derivatives) vector maps, 2 inputs (vector + Python float) x 2 outputs (vector + Python float) with '
